@@ -1053,6 +1053,94 @@ pub fn serve() -> ! {
     std::process::exit(0);
 }
 
+/// Iteration-order seam for `par_iter().try_for_each(..)` sites. Which failing iteration's error is
+/// returned depends on which one fails before the others have started (rayon skips iterations once
+/// one has failed, otherwise the left-most error wins). With `WILD_VERIF_ITER=<site>:<key>` the
+/// iteration with that key runs first and the others wait for it; if it failed, they return
+/// without doing anything, exactly as if rayon had short-circuited them.
+pub mod iter {
+    use std::sync::Condvar;
+    use std::sync::Mutex;
+    use std::sync::OnceLock;
+
+    struct State {
+        /// `Some(failed)` once the designated iteration has finished.
+        first_done: Option<bool>,
+    }
+
+    static STATE: Mutex<State> = Mutex::new(State { first_done: None });
+    static CONDVAR: Condvar = Condvar::new();
+
+    fn config() -> &'static Option<(String, u64)> {
+        static CONFIG: OnceLock<Option<(String, u64)>> = OnceLock::new();
+        CONFIG.get_or_init(|| {
+            let value = std::env::var("WILD_VERIF_ITER").ok()?;
+            let (site, key) = value.rsplit_once(':')?;
+            Some((site.to_owned(), key.parse().ok()?))
+        })
+    }
+
+    pub struct IterGuard {
+        first: bool,
+        completed: bool,
+        skip: bool,
+    }
+
+    pub fn enter(site: &'static str, key: u64) -> IterGuard {
+        super::sched::event("iter", super::sched::hash_debug(&site), key, 0);
+        let mut guard = IterGuard {
+            first: false,
+            completed: false,
+            skip: false,
+        };
+        let Some((chosen_site, chosen_key)) = config() else {
+            return guard;
+        };
+        if chosen_site != site {
+            return guard;
+        }
+        if *chosen_key == key {
+            guard.first = true;
+            return guard;
+        }
+        let mut state = STATE.lock().unwrap();
+        let start = std::time::Instant::now();
+        while state.first_done.is_none() {
+            let (s, _) = CONDVAR
+                .wait_timeout(state, std::time::Duration::from_secs(1))
+                .unwrap();
+            state = s;
+            if start.elapsed().as_secs() > 20 {
+                eprintln!("WILD_VERIF: iteration {site}:{chosen_key} never ran");
+                std::process::exit(94);
+            }
+        }
+        guard.skip = state.first_done == Some(true);
+        guard
+    }
+
+    impl IterGuard {
+        /// Whether this iteration should return immediately (the designated one failed first).
+        pub fn skip(&self) -> bool {
+            self.skip
+        }
+
+        /// The iteration's body ran to its successful end.
+        pub fn completed(&mut self) {
+            self.completed = true;
+        }
+    }
+
+    impl Drop for IterGuard {
+        fn drop(&mut self) {
+            if self.first {
+                STATE.lock().unwrap().first_done = Some(!self.completed);
+                CONDVAR.notify_all();
+            }
+        }
+    }
+}
+
 /// Thin wrappers that expose crate-private pure functions to out-of-tree harnesses. No behaviour
 /// of their own.
 pub mod api {
